@@ -121,7 +121,7 @@ def gen_case(rng, vector=None, nfaces=None, N=None):
             "labels": None if rng.random() < 0.7 else rng.choice([list(range(1, nfaces + 1)),
                                                                    rng.sample(range(0, 9), nfaces)]),
             "dtype": rng.choice(["float64", "float64", "int64", "float32"]),
-            "partner_dtype": rng.choice(["float64", "int64", "float32"])}
+            "partner_dtype": rng.choice(["float64", "int64", "float32"]), "warmup": rng.random() < 0.3}
 
 
 def generate(rng, tier):
@@ -181,6 +181,15 @@ def run_impl(case):
     else:
         data = da
     try:
+        if case.get("warmup"):
+            # nothing is carried from one call to the next: other values through the same grid first
+            try:
+                w = {k_: v * 2 + 1 for k_, v in data.items()} if isinstance(data, dict) else data * 2 + 1
+                wk = {"other_component": {k_: v * 2 + 1 for k_, v in kwargs["other_component"].items()}} \
+                    if "other_component" in kwargs else {}
+                pad(w, g, boundary_width=bw, boundary=case["boundary"], fill_value=case["fill"], **wk)
+            except Exception:
+                pass
         r = pad(data, g, boundary_width=bw, boundary=case["boundary"], fill_value=case["fill"], **kwargs)
         if isinstance(r, dict):
             [r] = list(r.values())
